@@ -784,7 +784,7 @@ package desync
 //@   ensures $consumed >= old($consumed) && ($consumed == old($consumed) || $consumed < 1<<40)
 
 //@ func (d *FormatDecoder) Next
-//@   prop C19 C04
+//@   prop C19 C04 C05
 //@   safety C19
 //@   checks alloc
 //@   requires $consumed >= 0
@@ -793,6 +793,11 @@ package desync
 //# a decoded table or goodbye list is never longer than the input that was read for it
 //@   ensures r1 == nil && is(r0, FormatTable) ==> 40 * len(as(r0, FormatTable).Items) <= $consumed - old($consumed)
 //@   ensures r1 == nil && is(r0, FormatGoodbye) ==> 24 * len(as(r0, FormatGoodbye).Items) <= $consumed - old($consumed)
+//# C05: a decoded entry / device element carries the fields laid out in the input words
+//@   ensures @C05 r1 == nil && is(r0, FormatEntry) ==> $r[old($rp)] == 64 && $rp == old($rp) + 64 && as(r0, FormatEntry).FeatureFlags == $r[old($rp)+16] && \
+//@       as(r0, FormatEntry).Mode == s2f($r[old($rp)+24] % 4294967296) && as(r0, FormatEntry).Flags == $r[old($rp)+32] && \
+//@       u64(as(r0, FormatEntry).UID) == $r[old($rp)+40] && u64(as(r0, FormatEntry).GID) == $r[old($rp)+48] && u64(unixNano(as(r0, FormatEntry).MTime)) == $r[old($rp)+56]
+//@   ensures @C05 r1 == nil && is(r0, FormatDevice) ==> $rp == old($rp) + 32 && as(r0, FormatDevice).Major == $r[old($rp)+16] && as(r0, FormatDevice).Minor == $r[old($rp)+24]
 //# C04: what a successfully decoded index header / chunk table says about the input words
 //@   ensures @C04 r1 == nil && is(r0, FormatIndex) ==> $r[old($rp)] == as(r0, FormatIndex).Size && $r[old($rp)+8] == CaFormatIndex && $rp == old($rp) + 48 && \
 //@       $r[old($rp)+16] == as(r0, FormatIndex).FeatureFlags && $r[old($rp)+24] == as(r0, FormatIndex).ChunkSizeMin && \
@@ -961,8 +966,10 @@ package desync
 //@     (forall k int :: 0 <= k && k < len(its) ==> w[p+16+40*k] == its[k].Offset && its[k].Offset != 0 && ids[p+24+40*k] == its[k].Chunk) && \
 //@     w[p+16+40*len(its)] == 0 && w[p+24+40*len(its)] == 0 && w[p+48+40*len(its)] == CaFormatTableTailMarker
 
+//# a signed 64-bit value reinterpreted as unsigned (what uint64(x) does)
+//@ spec func u64(x int) int = ite(x >= 0, x, x + 18446744073709551616)
 //@ func (e *FormatEncoder) Encode
-//@   prop C04 C13
+//@   prop C04 C13 C05
 //@   safety none
 //@   pure
 //@   modifies $w, $wid, $wn
@@ -972,6 +979,13 @@ package desync
 //@       $w[old($wn)] == as(v, FormatIndex).Size && $w[old($wn)+8] == as(v, FormatIndex).Type
 //@   ensures @C04 r1 == nil && is(v, FormatTable) && as(v, FormatTable).Size == 18446744073709551615 && as(v, FormatTable).Type == CaFormatTable ==> \
 //@       tableAt($w, $wid, old($wn), as(v, FormatTable).Items) && r0 == 56 + 40*len(as(v, FormatTable).Items) && $wn == old($wn) + r0
+//# C05: the eight words of an entry element and the four of a device element carry the fields of the value
+//# (mode as st_mode, owner ids, modification time in nanoseconds; device numbers)
+//@   ensures @C05 r1 == nil && is(v, FormatEntry) ==> $w[old($wn)] == as(v, FormatEntry).Size && $w[old($wn)+8] == as(v, FormatEntry).Type && \
+//@       $w[old($wn)+16] == as(v, FormatEntry).FeatureFlags && $w[old($wn)+24] == f2s(as(v, FormatEntry).Mode) && $w[old($wn)+32] == as(v, FormatEntry).Flags && \
+//@       $w[old($wn)+40] == u64(as(v, FormatEntry).UID) && $w[old($wn)+48] == u64(as(v, FormatEntry).GID) && $w[old($wn)+56] == u64(unixNano(as(v, FormatEntry).MTime))
+//@   ensures @C05 r1 == nil && is(v, FormatDevice) ==> $w[old($wn)] == as(v, FormatDevice).Size && $w[old($wn)+8] == as(v, FormatDevice).Type && \
+//@       $w[old($wn)+16] == as(v, FormatDevice).Major && $w[old($wn)+24] == as(v, FormatDevice).Minor
 //# C13: number of bytes written per element, in terms of its content (the size field a writer must put into the header)
 //@   ensures @C13 r1 == nil && is(v, FormatEntry) ==> r0 == 64
 //@   ensures @C13 r1 == nil && is(v, FormatUser) ==> r0 == 16 + len(as(v, FormatUser).Name) + 1
